@@ -27,17 +27,20 @@ def small_controls(rng):
     return gen.g_controls(rng) if rng.random() < 0.15 else []
 
 
-def g_client_call(rng):
+def g_client_call(rng, custom=False):
+    """`custom`: the session has the harness's custom control / filter / credential types registered and may use them"""
     r = rng.random()
     if r < 0.3:
         cred = {"k": "simple", "pw": C.tx(rng.choice(["", "pw"]))} if rng.random() < 0.6 else \
             {"k": "sasl", "mech": C.tx(rng.choice(["GSSAPI", ""])), "creds": rng.choice([None, "", "0102"])}
+        if custom and rng.random() < 0.4:
+            cred = {"k": "custom", "v": C.tx(rng.choice(["u:p", ""]))}
         return {"k": "bind", "dn": C.tx(rng.choice(["", "cn=a"])), "cred": cred, "controls": small_controls(rng)}
     if r < 0.6:
         return {"k": "search", "base": C.tx(rng.choice(["", "dc=x"])), "scope": rng.choice([0, 1, 2]), "deref": rng.choice([0, 3]),
                 "size": rng.choice([0, 10]), "time": 0, "typesOnly": rng.random() < 0.3,
-                "filter": None if rng.random() < 0.5 else gen.g_filter(rng, 2), "attrs": [C.tx("cn")] if rng.random() < 0.5 else [],
-                "controls": small_controls(rng)}
+                "filter": None if rng.random() < 0.5 else gen.g_filter(rng, 2, allow_custom=custom), "attrs": [C.tx("cn")] if rng.random() < 0.5 else [],
+                "controls": small_controls(rng) if not custom else (gen.g_controls(rng, allow_custom=True) if rng.random() < 0.4 else [])}
     if r < 0.9:
         return {"k": "extended", "name": C.tx(rng.choice(["1.3.6.1.4.1.1466.20037", "1.2.3", NOTICE])), "value": rng.choice([None, "", "00ff"]),
                 "controls": small_controls(rng)}
@@ -350,6 +353,7 @@ def monitor(reqs, replies, roles):
                     pass
         if role == "client" and k == "receive" and before["state"] != "CLOSED" and not tail_before:
             single = q.get("_single")
+            units = q.get("_units")
             if single is not None:
                 is_resp = single["op"]["k"] in ("bindResp", "searchEntry", "searchDone", "searchRef", "extResp")
                 is_notice = ev_of_msgjson(single) == "terminate"
@@ -363,6 +367,23 @@ def monitor(reqs, replies, roles):
                     want = prog_before.get(single["id"]) == "search" and single["op"]["k"] != "searchDone"
                     if still != want:
                         viol("C09", None, "operation lifetime wrong after an accepted response", i)
+            elif units:
+                # several complete messages in the chunk (possibly followed by the beginning of another): each is judged in order against the
+                # monitor's own bookkeeping; the first one that is not a response for an operation in progress must close the session
+                prog = dict(prog_before)
+                refuse = False
+                for u in units:
+                    is_resp = u["op"]["k"] in ("bindResp", "searchEntry", "searchDone", "searchRef", "extResp")
+                    if not is_resp or u["id"] not in prog or ev_of_msgjson(u) == "terminate":
+                        refuse = True
+                        break
+                    if not (prog[u["id"]] == "search" and u["op"]["k"] in ("searchEntry", "searchRef")):
+                        prog.pop(u["id"])
+                if refuse and not (ok == "ProtocolError" and after["state"] == "CLOSED"):
+                    viol("C09", None, "a chunk containing a message that is not a response for an operation in progress did not raise ProtocolError "
+                         "and close the session", i)
+                if not refuse and ok != "msgs":
+                    viol("C09", None, "a chunk of responses for operations in progress was not accepted", i)
 
         # ---------------- C08: lifecycle
         if before["state"] == "CLOSED":
@@ -453,7 +474,7 @@ def small_alphabet(role):
     ext = lambda i: {"k": "receive", "chunk": _pack({"id": i, "op": {"k": "extReq", "name": t("1.2"), "value": None}, "controls": []})}
     syms = [
         {"k": "receive", "chunk": _pack({"id": 1, "op": {"k": "bindReq", "version": 3, "name": t(""), "cred": {"k": "simple", "pw": t("")}}, "controls": []})},
-        ext(1), ext(2),
+        ext(1), ext(2), ext(0),
         {"k": "receive", "chunk": _pack({"id": 2, "op": {"k": "searchReq", "base": t(""), "scope": 2, "deref": 0, "size": 0, "time": 0, "typesOnly": False,
                                                         "filter": {"k": "present", "a": t("cn")}, "attrs": []}, "controls": []})},
         {"k": "receive", "chunk": _pack({"id": 0, "op": {"k": "unbind"}, "controls": []})},
@@ -606,6 +627,21 @@ def scripted_histories():
         hist(("c", bind_c), ("c", refused), ("c", rx(ok1)), ("c", rx(ext2)))
         hist(("c", bind_c), ("c", refused), ("c", rx(ok1)), ("c", rx(done2)))
         hist(("c", bind_c), ("c", refused), ("c", refused), ("c", rx(ok1)), ("c", ext_c), ("c", rx(ext2)), ("c", rx(ext2)))
+    # a request with message id 0 is outstanding like any other: a bind must be refused while it is
+    simple = {"k": "simple", "pw": t("")}
+    hist(("s", rx(ext_req(0))), ("s", rx(bind_req(1, simple))))
+    hist(("s", rx(ext_req(0) + bind_req(1, simple))))
+    hist(("s", rx(search_req(0))), ("s", rx(bind_req(1, sasl))))
+    hist(("s", rx(ext_req(0))), ("s", ext_resp(0)), ("s", rx(bind_req(1, simple))), ("s", bind_resp(1, 0)))
+    # several messages in one chunk, the chunk ending inside a further message: the id check applies to each complete message
+    ext1 = pk({"id": 1, "op": {"k": "extResp", "res": res(0), "name": None, "value": None}, "controls": []})
+    ext7 = pk({"id": 7, "op": {"k": "extResp", "res": res(0), "name": None, "value": None}, "controls": []})
+    ext0 = pk({"id": 0, "op": {"k": "extResp", "res": res(0), "name": None, "value": None}, "controls": []})
+    for bad in (ext7, ext0, ext1 + ext1, bytes(ext_req(1))):
+        for cut in (1, 3, len(ext2) - 1):
+            hist(("c", ext_c), ("c", ext_c), ("c", rx(bad + ext2[:cut])), ("c", rx(ext2[cut:])))
+            hist(("c", ext_c), ("c", ext_c), ("c", rx(ext1 + bad + ext2[:cut])), ("c", rx(ext2[cut:])))
+    hist(("c", ext_c), ("c", ext_c), ("c", rx(ext1 + ext2[:3])), ("c", rx(ext2[3:])), ("c", ext_c), ("c", rx(ext1)))
     # server in the middle of a SASL bind
     hist(("s", rx(bind_req(1, sasl))), ("s", bind_resp(1, 14)), ("s", rx(ext_req(2))), ("s", ext_resp(2)), ("s", rx(bind_req(3, sasl))), ("s", bind_resp(3, 0)))
     hist(("s", rx(bind_req(1, sasl))), ("s", bind_resp(1, 14)), ("s", bind_resp(1, 0)), ("s", bind_resp(7, 0)), ("s", rx(bind_req(2, sasl))), ("s", bind_resp(2, 0)),
@@ -639,6 +675,16 @@ def run_histories(ctx, prop, n_hist, length, mode="mixed"):
                     m = M.unpack_ldap_message(r, M.PackingOptions())
                     if not r.get_remaining_data():
                         q["_single"] = C.msg_to_json(m)
+                    else:
+                        # more than one unit: decode every complete unit (own framing), ignore an incomplete tail
+                        import ber as _ber
+                        _, pos, _ = _ber.count_frames(data)
+                        rr = sansldap.asn1.ASN1Reader(data[:pos])
+                        us = []
+                        while rr:
+                            us.append(C.msg_to_json(M.unpack_ldap_message(rr, M.PackingOptions())))
+                        if len(us) >= 1:
+                            q["_units"] = us
                 except BaseException:  # noqa: BLE001
                     pass
         roles = {names[0]: "client", names[1]: "server"}
@@ -655,7 +701,7 @@ def run_histories(ctx, prop, n_hist, length, mode="mixed"):
         all_reqs.extend(reqs)
     disagreements = []
     if ctx.driver_ok:
-        clean = [{k: v for k, v in q.items() if k != "_single"} for q in all_reqs]
+        clean = [{k: v for k, v in q.items() if k not in ("_single", "_units")} for q in all_reqs]
         a = drive.run_impl(copy.deepcopy(clean))
         b = drive.run_model(clean)
         pa = [project(prop, drive.norm(x)) for x in a]
